@@ -2,6 +2,7 @@ package main
 
 import (
 	"fmt"
+	"math"
 	"sort"
 
 	btpb "cloud.google.com/go/bigtable/apiv2/bigtablepb"
@@ -249,7 +250,8 @@ func c05Boundary(ctx gen.FilterCtx, rows []model.Row) []*model.Filter {
 			}
 		}
 	}
-	tsb := []int64{0, 1, 999, 1000, 1001, 2000, 3000, 4000, 2500, 20000, 39000, 40000}
+	// (negative bounds too: -1 is the "server time" sentinel of the write path and must be no exception here)
+	tsb := []int64{0, 1, 999, 1000, 1001, 2000, 3000, 4000, 2500, 20000, 39000, 40000, -1, -2, -999, -1000, math.MinInt64, math.MaxInt64}
 	for _, s := range tsb {
 		for _, e := range tsb {
 			add(&model.Filter{Kind: "tsrange", TStart: s, TEnd: e})
